@@ -5,20 +5,38 @@ Core-only.  Nothing in this file is a fact about dae.
 -/
 namespace DaeVerif.C19
 
-/-- Identifiers (record names, member paths, constant names, GOARCH names) are kept as lists of
-UTF-8 bytes, not as `String`: the table theorems are proved by kernel evaluation (`decide`) and
-`String` equality is very slow in the kernel, whereas comparing short lists of small numbers is not. -/
-abbrev Name := List Nat
+/-- Identifiers (record names, member paths, constant names, GOARCH names) are kept as natural
+numbers, not as `String`: the table theorems are proved by kernel evaluation (`decide`), `String`
+equality is very slow in the kernel, whereas comparing two numerals is one big-number operation.
+Encoding: the UTF-8 bytes as base-256 digits, most significant first, below a leading digit 1
+(so `n!""` = 1, `n!"a"` = 256 + 97, and the length is recoverable). -/
+abbrev Name := Nat
+
+def nameOfBytes (bs : List Nat) : Name := bs.foldl (fun acc b => acc * 256 + b) 1
 
 open Lean in
-/-- `n!"abc"` = the bytes of the literal, expanded at parse time to a list literal. -/
+/-- `n!"abc"` = the name of the literal, expanded at parse time to a raw numeral. -/
 macro:max "n!" s:str : term => do
-  let bytes := s.getString.toUTF8.toList
-  let lits := bytes.map (fun b => Syntax.mkNumLit (toString b.toNat))
-  `(([$(lits.toArray),*] : List Nat))
+  let v := s.getString.toUTF8.toList.foldl (fun acc b => acc * 256 + b.toNat) 1
+  `((nat_lit $(Syntax.mkNumLit (toString v)) : Nat))
 
-def nameStr (n : Name) : String := String.ofList (n.map Char.ofNat)
-def nameOf (s : String) : Name := s.toUTF8.toList.map (·.toNat)
+/-- number of bytes of a name -/
+def nameLen (n : Name) : Nat := n.log2 / 8
+
+/-- concatenation: shift `a` left by the length of `b` and put `b` without its leading 1 below it -/
+def nameCat (a b : Name) : Name := (a <<< (8 * nameLen b)) + (b - (1 <<< (8 * nameLen b)))
+
+/-- the bytes of a name, most significant first -/
+def nameBytes (n : Name) : List Nat := (List.range (nameLen n)).map (fun i => (n >>> (8 * (nameLen n - 1 - i))) % 256)
+
+def nameEq (a b : Name) : Bool := Nat.beq a b
+
+def nameMem (n : Name) : List Name → Bool
+  | [] => false
+  | x :: xs => nameEq n x || nameMem n xs
+
+def nameStr (n : Name) : String := String.ofList ((nameBytes n).map Char.ofNat)
+def nameOf (s : String) : Name := nameOfBytes (s.toUTF8.toList.map (·.toNat))
 
 /-- Signedness class of a scalar leaf. `enum` = a C enum (compatible with an unsigned Go integer of
 the same width), `recd` = an opaque record (only used for kernel-internal structs). -/
